@@ -63,8 +63,9 @@ def build(tier: str, props=PROPS, pid="C06") -> CheckSpec:
     for sh in shapes:
         for k in sensitive:
             cubes.append(Cube(f"attrs {'/'.join(map(str, T.ATTR_SHAPES[sh]))} pass#{k} {methods[k]}", h_attr,
-                              {"sid": str, "scls": str, "skey": int, "sval": str},
-                              {"shape": sh, "pass_index": k, "props": props}, timeout=60 if q else 600, per_path_timeout=20, group="attrs:" + methods[k]))
+                              {"sid": str, "scls": str, "skey": int, "sval": str, "hidx": int},
+                              {"shape": sh, "pass_index": k, "props": props, "keys": T.PASS_STYLE_KEYS[k], "lengths": T.PASS_USES_LENGTH[k]},
+                              timeout=(200 if T.PASS_USES_LENGTH[k] else 60) if q else 900, per_path_timeout=20, group="attrs:" + methods[k]))
     cubes.append(Cube("twin: passes restructure a document", twin_pass_changes_tree, {"l1": int, "l2": int}, {"c1": T.cidx("table2x2"), "c2": 0},
                       timeout=120, role="twin"))
     return CheckSpec(
@@ -77,7 +78,7 @@ def build(tier: str, props=PROPS, pid="C06") -> CheckSpec:
                 "container pairs": "every C1 with C2=none plus 12 selected pairs" if q else "all pairs",
                 "attribute documents": [list(T.ATTR_SHAPES[i]) for i in shapes],
                 "attribute-sensitive passes (from the current source)": [methods[k] for k in sensitive],
-                "symbolic attributes": "id (<= 14 chars), class (<= 14 chars), one style declaration: key from %r, value symbolic (<= 8 chars); fixed companions %r" % (T.STYLE_KEYS, T.STYLE_COMPANIONS),
+                "symbolic attributes": "id (<= 14 chars), class (<= 14 chars), one style declaration: key among those the pass reads (harvested from its source; all of %r if none), value symbolic (<= 8 chars); height from %r by a symbolic index, width fixed" % (T.STYLE_KEYS, T.LENGTHS),
                 "fixed-point budget": "4*n^2+8 iterations of _fix_paragraphs/_fix_nesting per pass (n = nodes of the tree)"},
         stubs=["parse_string + build_advanced_tree run outside the tracer on the concrete markup of the path (their output is the pre-state of the passes)",
                "sys.stdout silenced while a pass runs"],
